@@ -84,7 +84,7 @@ func (w *World) EnableScheduler(cfg SchedConfig) {
 		}
 	}
 	if cfg.MaxSteps == 0 {
-		cfg.MaxSteps = 200000
+		cfg.MaxSteps = 2000000
 	}
 	w.sched = &scheduler{cfg: cfg}
 }
